@@ -7,11 +7,22 @@ from fractions import Fraction
 from harness import outcome
 from harness.runner import BoundedRun, Failure
 
-LEVEL = "proof"
+LEVEL = "exploration"
 SPECS = []
-EXPLANATION = ""        # filled below (depends on which kernels are under contract)
-ASSUMPTIONS = []
-TRUSTED_BASE = []
+EXPLANATION = (
+    "Bounded stand-in for the property as a whole (never counted as proved): flatten, flattened_sum/product, both constant "
+    "folders, TermCollector and distribute/expand run on enumerated pools (polynomial: all depth-2 Sum/Product/Power "
+    "combinations incl. empty, singleton, zero and unit operands, powers of powers and of products; rational; every other "
+    "node type around nested sums/products).  Value preservation is decided per instance by an exact rational-function "
+    "normal form (cross-multiplied polynomial equality over the rationals) and by exact evaluation in three rational "
+    "environments; normal-form clauses (flatness, neutral elements, at most one constant, no sum beneath product / integer "
+    "power, pairwise distinct monomials) are predicates written from the statement.  Proved kernel (z3, real arithmetic): "
+    "FlattenMapper.map_sum / map_product for every arity 0..3 and DistributeMapper.map_quotient preserve the value given "
+    "value-preserving recursive results and the assumed contract of flattened_sum / flattened_product.")
+ASSUMPTIONS = ["flattened_sum / flattened_product: assumed contract (value = sum / product of the terms' values) for the proved kernel; the worklist loops "
+               "themselves, fold(), split_term/map_sum (dict bookkeeping) and dist() (recursive closure) are bounded only",
+               "real arithmetic mathematical; arity bound 3 for the kernel"]
+TRUSTED_BASE = ["z3 nonlinear real arithmetic", "own exact polynomial arithmetic (props.c11.Poly/RF) as the reference normal form"]
 
 
 # ----------------------------------------------------------------------------- exact rational-function normal form
@@ -65,6 +76,10 @@ class Poly:
 
 class Undefined(Exception):
     pass
+
+
+class NotFragment(Exception):
+    """Not in the polynomial / rational fragment: only exact evaluation applies."""
 
 
 class RF:
@@ -123,7 +138,9 @@ def rf(e):
         return rf(e.base) ** e.exponent
     if isinstance(e, p.CommonSubexpression):
         return rf(e.child)
-    return RF(Poly.atom(repr(e)))
+    if isinstance(e, p.Variable):
+        return RF(Poly.atom(e.name))
+    raise NotFragment
 
 
 # ----------------------------------------------------------------------------- exact evaluation (independent of the rewrites)
@@ -260,7 +277,7 @@ def expand_violation(e):
     for t in terms:
         try:
             r = rf(t)
-        except Undefined:
+        except (Undefined, NotFragment):
             return None
         if len(r.n.t) > 1 or len(r.d.t) != 1:
             continue            # not a monomial term (e.g. a quotient by a sum): outside the polynomial clause
@@ -355,6 +372,39 @@ def generic_pool(tier):
 
 
 # ----------------------------------------------------------------------------- the bounded checks
+def has_float(e):
+    import pymbolic.primitives as p
+    if isinstance(e, float):
+        return True
+    if isinstance(e, p.Expression):
+        import dataclasses
+        for f in dataclasses.fields(e):
+            v = getattr(e, f.name)
+            if any(has_float(c) for c in (v if isinstance(v, tuple) else (v,))):
+                return True
+    return False
+
+
+def float_cause(e, res):
+    """The known defect region: an inexact quotient of integer constants was folded to a float.  Tagged only when the
+    result is numerically right (1e-9) in every sample environment; any other discrepancy stays untagged."""
+    if has_float(e) or not has_float(res):
+        return ""
+    for env in ENVS:
+        v = _try_ev(e, env)
+        if v is None:
+            continue
+        w = outcome.run(lambda: ev(res, env))
+        if w[0] != "val":
+            return ""
+        try:
+            if abs(float(v[0]) - float(w[1])) > 1e-9 * (1 + abs(float(v[0]))):
+                return ""
+        except (TypeError, ValueError):
+            return ""
+    return " cause=exact-quotient-folded-to-float"
+
+
 def check_value(b, name, e, r, fns, rational=True):
     """Value preservation: exact normal form (when in the rational fragment) and exact evaluation in the sample environments."""
     if r[0] != "val":
@@ -367,16 +417,17 @@ def check_value(b, name, e, r, fns, rational=True):
         return False
     res = r[1]
     ok = True
-    if rational:
+    cause = float_cause(e, res)
+    if rational and not cause:
         try:
             want = rf(e)
-        except Undefined:
+        except (Undefined, NotFragment):
             want = None
         if want is not None:
             try:
                 got = rf(res)
                 same = got == want
-            except Undefined:
+            except (Undefined, NotFragment):
                 same = False
             if not same:
                 b.fail(Failure(b.name, f"what={name}-normal-form-differs expr={e!r}", dict(kind=name, expr=repr(e)), expected="same rational function", actual=repr(res)[:200],
@@ -388,7 +439,7 @@ def check_value(b, name, e, r, fns, rational=True):
             continue
         w = outcome.run(lambda: ev(res, env))
         if w[0] != "val" or not exact_eq(v[0], w[1]):
-            b.fail(Failure(b.name, f"what={name}-value-differs expr={e!r} env={i}", dict(kind=name, expr=repr(e), env=i), expected=repr(v[0]), actual=outcome.describe(w)[:200],
+            b.fail(Failure(b.name, f"what={name}-value-differs{cause} expr={e!r} env={i}", dict(kind=name, expr=repr(e), env=i), expected=repr(v[0]), actual=outcome.describe(w)[:200],
                            functions=fns))
             ok = False
             break
@@ -511,7 +562,9 @@ def bounded(tier, seed, procs):
 
 
 def proof_jobs(tier):
-    return []
+    import pymbolic.primitives as p
+    from contracts import c11 as K
+    return [("mapper", mc, getattr(p, k), K.hooks) for mc, k in K.MAPPER_JOBS]
 
 
 def replay(case):
